@@ -143,7 +143,43 @@ func c03Push(p *vfProcess, class int, id int) {
 // non-empty class as the queues stand at that moment - compared step by step with four model FIFOs.
 func VerifC03ActorArrivals() {
 	b, p := newVfActor()
-	c03Arrivals(p, b.ProcessRun, func(f func(int)) { b.onHandle = f }, func() []int { return b.order }, true)
+	c03Arrivals(p, b.ProcessRun, func(f func(int)) { b.onHandle = f }, func() []int { return b.order }, true, 4)
+}
+
+// VerifC03PoolArrivals: the same for the run loop of act.Pool: urgent and system messages go to the
+// pool's own HandleMessage, main-queue messages are forwarded to a worker (one worker with room) - the
+// sequence of handler calls and forwards is compared with the model. A pool cannot be a logger, so
+// there is no log class.
+func VerifC03PoolArrivals() {
+	b := &vfPoolBehavior{}
+	p := newVfProcess(b)
+	b.Process = p
+	b.behavior = b
+	b.mailbox = p.mailbox
+	b.options = PoolOptions{PoolSize: 1, WorkerMailboxSize: 100, WorkerFactory: factoryNil}
+	b.pool = lib.NewQueueLimitMPSC(100, false)
+	pid, _ := p.Spawn(factoryNil, gen.ProcessOptions{LinkParent: true})
+	b.pool.Push(pid)
+	p.fwdResult = func(to gen.PID) error {
+		if b.onHandle != nil {
+			b.onHandle(len(b.order))
+		}
+		b.order = append(b.order, -(len(p.forwards) + 1))
+		return nil
+	}
+	got := func() []int {
+		out := make([]int, len(b.order))
+		for i, v := range b.order {
+			out[i] = v
+			if v < 0 && -v-1 < len(p.forwards) {
+				if m, ok := p.forwards[-v-1].msg.Message.(int); ok {
+					out[i] = m
+				}
+			}
+		}
+		return out
+	}
+	c03Arrivals(p, b.ProcessRun, func(f func(int)) { b.onHandle = f }, got, false, 3)
 }
 
 // VerifC03SupervisorArrivals: the same for the run loop of act.Supervisor (its own copy of the dequeue
@@ -152,17 +188,17 @@ func VerifC03ActorArrivals() {
 func VerifC03SupervisorArrivals() {
 	lib.VerifClockAdvance(0)
 	e := c08Setup(SupervisorTypeOneForOne, SupervisorStrategyPermanent, false, 1, 10, nil, true)
-	c03Arrivals(e.p, e.b.ProcessRun, func(f func(int)) { e.b.onHandle = f }, func() []int { return e.b.order }, false)
+	c03Arrivals(e.p, e.b.ProcessRun, func(f func(int)) { e.b.onHandle = f }, func() []int { return e.b.order }, false, 4)
 }
 
 // c03Arrivals is the body shared by the run loops: logHandled says whether a log message reaches a
 // handler (Actor.HandleLog) or is popped and dropped (Supervisor).
-func c03Arrivals(p *vfProcess, run func() error, hook func(func(int)), got func() []int, logHandled bool) {
+func c03Arrivals(p *vfProcess, run func() error, hook func(func(int)), got func() []int, logHandled bool, classes int) {
 	m := lib.VerifParam("messages", 2)
 	a := lib.VerifParam("arrivals", 1)
 	var model [4][]int
 	for i := 0; i < m; i++ {
-		c := lib.VerifPick("class", 4)
+		c := lib.VerifPick("class", classes)
 		c03Push(p, c, i)
 		id := i
 		if c == 3 {
@@ -174,7 +210,7 @@ func c03Arrivals(p *vfProcess, run func() error, hook func(func(int)), got func(
 	cl := make([]int, a)
 	for k := 0; k < a; k++ {
 		at[k] = lib.VerifPick("during", m+a)
-		cl[k] = lib.VerifPick("aclass", 4)
+		cl[k] = lib.VerifPick("aclass", classes)
 	}
 	hook(func(n int) {
 		for k := 0; k < a; k++ {
